@@ -11,10 +11,45 @@ open PrologVerif PrologVerif.VM PrologVerif.DecompileCompile PrologVerif.Activat
 section
 variable {fl : Bool} {tmpl : Term} {max : Nat} {prog : List Term} {F : Nat}
 
+theorem LvOK.deeper {lv : Lv} {d d' : Nat} (h : LvOK lv d) (hd : d ≤ d') : LvOK lv d' :=
+  ⟨h.nodup, h.nz, h.mono, fun e he l hl => Nat.lt_of_lt_of_le (h.below e he l hl) hd⟩
+
+/-- a call with one alternative that the VM does not make changes nothing: the cut levels in use
+    are below its depth -/
+theorem match_post {lv : Lv} {d : Nat} {ans0 : List Term} {m m' : MS} {sig : SigG Err} {r1 : SLD.Res}
+    (hok : LvOK lv d) (hm : Match tmpl max prog lv ans0 m m' sig r1) :
+    Match tmpl max prog lv ans0 m m' sig (post d r1) := by
+  rcases hm.stop with ⟨h1, h2, h3⟩ | ⟨c, l, h1, h2, h3, h4⟩ | ⟨h1, h2⟩ | ⟨F', c1, c2, ex, co, h1, h2⟩
+  · have e : post d r1 = ⟨r1.answers ++ [], .exhausted⟩ := by simp [post, h2]
+    rw [e]
+    exact ⟨by simpa using hm.ans, Or.inl ⟨h1, rfl, h3⟩, hm.st, hm.nvar⟩
+  · have hl : l ≠ d := by have := hok.lev_lt h3; omega
+    have e : post d r1 = { r1 with stop := .cut l } := by simp [post, h2, hl]
+    rw [e]
+    exact ⟨hm.ans, Or.inr (Or.inl ⟨c, l, h1, rfl, h3, h4⟩), hm.st, hm.nvar⟩
+  · have e : post d r1 = r1 := by simp [post, h2]
+    rw [e]; exact hm
+  · have e : post d r1 = r1 := by simp [post, h2]
+    rw [e]; exact hm
+
+theorem match_postN {lv : Lv} {ans0 : List Term} {m m' : MS} {sig : SigG Err} {r1 : SLD.Res} :
+    ∀ (j d : Nat), LvOK lv d → Match tmpl max prog lv ans0 m m' sig r1 →
+      Match tmpl max prog lv ans0 m m' sig (postN d j r1)
+  | 0, _, _, hm => hm
+  | j + 1, d, hok, hm => match_post hok (match_postN j (d + 1) (hok.deeper (Nat.le_succ d)) hm)
+
 theorem tp_succ {k : Nat} (ihA : TAk fl tmpl max prog F k) (ihD : TDk fl tmpl max prog F k)
     (ihPall : ∀ j, j ≤ k → TPk fl tmpl max prog F j) (hprog : ∀ c ∈ prog, clauseS fl c = true) :
     TPk fl tmpl max prog F (k + 1) := by
-  intro p lv m sig m' hd hgood d ans0 r hspec hok hst hlt
+  intro p lv m sig m' hd hgood d0 ans0 r0 hspecW hok0 hst hlt
+  obtain ⟨j, r, hspec, rfl⟩ := hspecW
+  have hok : LvOK lv (d0 + j) := hok0.deeper (Nat.le_add_right _ _)
+  generalize hdj : d0 + j = d at hspec hok
+  suffices hmain : sig = .illScoped ∨ Match tmpl max prog lv ans0 m m' sig r by
+    rcases hmain with h | h
+    · exact Or.inl h
+    · exact Or.inr (match_postN j d0 hok0 h)
+  clear hok0 hdj
   cases hspec with
   | fail hans =>
     rw [leaf_ok' rfl rfl] at hd
